@@ -369,7 +369,7 @@ pub fn value_leaves(thorough: bool) -> Vec<RefVal> {
         if !big { push(d); }
     }
     // atom values from their names as strings (a value built through the library's own constructor would inherit a wrong name)
-    for n in crate::universe::atom_names(thorough) { if n.len() <= 600 { push(RefVal::atom(&n)); } }
+    for n in crate::universe::atom_names(thorough) { if n.len() <= 1100 { push(RefVal::atom(&n)); } }
     // the last four are names whose Latin-1 bytes also happen to be well-formed UTF-8 (of "é", "€", "😀", "é€")
     for s in ["é", "ÿ", "aé", "\u{80}", "ü".repeat(255).as_str(), "Ã©", "â\u{82}¬", "ð\u{9f}\u{98}\u{80}", "xÃ©â\u{82}¬"] {
         push(RefVal::atom(s));
